@@ -537,4 +537,28 @@ example : WRun 0 0 PState.created
     PState.run, PState.step, Dir.step, Dir.empty, upd, FileSt.ready, FileSt.sync, metaCands, AtomSt.cands,
     AtomSt.sync, AtomSt.visible, META, MANAGED]
 
+theorem cover_prun (s : PState) (h : Cover s.dir) (t : List Op) : Cover (s.run t).dir := by
+  rw [run_dir]; exact h.run t
+
+theorem cover_created : Cover PState.created.dir := cover_prun _ cover_empty _
+
+/-- **the full enumerator is sound too**: every element of `crashImages` (all outcome
+combinations over the touched paths, used by the counterexample theorems) is a `CrashImage`,
+at every point of every log from the empty directory -/
+theorem C01_crash_images_enumerator_sound (t : List Op) (img : LImage)
+    (h : img ∈ crashImages (Dir.empty.run t)) : CrashImage (Dir.empty.run t) img.toImage :=
+  crashImages_sound _ (cover_empty.run t) img h
+
+/-- hence the two witnesses of `C01_d3_counterexample` are crash images in the sense of the
+fault model (`CrashImage`), not only members of the enumeration -/
+theorem C01_d3_counterexample_images_are_crash_images :
+    CrashImage (afterCommit1.run (commit2Unsynced false)).dir
+      (LImage.toImage { files := [(3, some (7, true)), (2, some (10, true))],
+                        atoms := [(MANAGED, some ⟨0, 3, 12, [0, 2, 3]⟩), (META, some ⟨1, 2, 50, [2]⟩)] }) ∧
+    CrashImage (afterCommit1.run ((commit2Unsynced true).take 8)).dir
+      (LImage.toImage { files := [(3, some (7, true)), (2, none)],
+                        atoms := [(MANAGED, some ⟨0, 3, 12, [0, 2, 3]⟩), (META, some ⟨1, 2, 50, [2]⟩)] }) :=
+  ⟨crashImages_sound _ (cover_prun _ (cover_prun _ cover_created _) _) _ C01_d3_counterexample.1.2.1,
+   crashImages_sound _ (cover_prun _ (cover_prun _ cover_created _) _) _ C01_d3_counterexample.2.1⟩
+
 end TantivyModel.C01
